@@ -19,7 +19,7 @@ import (
 // connection: the loser's end is reported while the winner progresses), reconnects after cuts,
 // pending requests answered late, cancels and unregisters while a peer keeps knocking.
 func genC18Hub(t *rapid.T) Scenario {
-	fam := rapid.IntRange(0, 4).Draw(t, "family")
+	fam := rapid.IntRange(0, 5).Draw(t, "family")
 	if v := core.EnvInt("VERIF_C18_FAMILY", -1); v >= 0 {
 		fam = v // development aid: one scenario family only
 	}
@@ -39,6 +39,20 @@ func genC18Hub(t *rapid.T) Scenario {
 				sc.Ops[i].K = "wait"
 			}
 		}
+		return sc
+	}
+	if fam == 4 {
+		// a completed connection, then the user (or the peer) ends it: removal, disconnect or cancel by
+		// either side at a settled moment - the last notification must follow the connection's end
+		sc := Scenario{N: 2, ZeroHigher: rapid.Bool().Draw(t, "zeroHigher")}
+		sc.Ops = []HubOp{{K: "register", X: 0, Y: 1}, {K: "register", X: 1, Y: 0}, {K: "appear", X: 0, Y: 1}, {K: "appear", X: 1, Y: 0,
+			WaitMs: rapid.SampledFrom([]int{1500, 2200}).Draw(t, "settle")}}
+		for i, n := 0, rapid.IntRange(1, 3).Draw(t, "nEnd"); i < n; i++ {
+			x := rapid.IntRange(0, 1).Draw(t, "ex")
+			sc.Ops = append(sc.Ops, HubOp{K: rapid.SampledFrom([]string{"unregister", "unregister", "disconnect", "cancel", "register", "cut"}).Draw(t, "endOp"), X: x, Y: 1 - x,
+				WaitMs: rapid.SampledFrom([]int{0, 300, 1500, 2500}).Draw(t, "ew"), Spell: rapid.SampledFrom([]int{0, 0, 1, 3}).Draw(t, "espell")})
+		}
+		sc.Ops = append(sc.Ops, HubOp{K: "wait", WaitMs: 800})
 		return sc
 	}
 	if fam == 3 {
